@@ -65,6 +65,40 @@ def sh(cmd, cwd=None, env=None, timeout=1800, inp=None):
         return 124, out + "\n[timeout after %ss]" % timeout
 
 
+def sub_proofs(R, pid, tag):
+    """Result.proofs() for a further property file (Properties/<pid>.v) of the same check: theorem lists are merged,
+    checker_cmd / coqchk of the calling check are kept (the sub-file's go under <tag>_*)."""
+    cov = R.coverage
+    prev = {k: cov.get(k) for k in ("theorems", "checker_cmd", "coqchk")}
+    R.proofs(pid=pid)
+    cov[tag + "_theorems"] = cov.get("theorems") or []
+    cov["theorems"] = (prev["theorems"] or []) + [t for t in cov[tag + "_theorems"] if t not in (prev["theorems"] or [])]
+    if prev["checker_cmd"] and prev["checker_cmd"] != cov.get("checker_cmd"):
+        cov["checker_cmd"] = prev["checker_cmd"] + "; " + cov.get("checker_cmd", "")
+    if "coqchk" in cov and prev["coqchk"] and prev["coqchk"] != cov["coqchk"]:
+        cov[tag + "_coqchk"] = cov["coqchk"]
+        cov["coqchk"] = prev["coqchk"]
+
+
+def run_translator(sub, out_name, timeout=300):
+    """Run translator/<sub> against REPO into coq/gen/<out_name>; the file is replaced only when its content
+    changes (several checks regenerate the same file; an unchanged file keeps make's timestamps)."""
+    tr = os.path.join(VERIF, "translator")
+    out_v = os.path.join(COQ, "gen", out_name)
+    tmp = out_v + ".tmp%d" % os.getpid()
+    rc, out = sh("go run ./%s -repo %s -out %s" % (sub, REPO, tmp), cwd=tr, env=go_env(), timeout=timeout)
+    if rc == 0 and os.path.exists(tmp):
+        new = open(tmp).read()
+        old = open(out_v).read() if os.path.exists(out_v) else None
+        if new != old:
+            os.replace(tmp, out_v)
+        else:
+            os.remove(tmp)
+    elif os.path.exists(tmp):
+        os.remove(tmp)
+    return rc, out
+
+
 @contextlib.contextmanager
 def locked(name):
     """Serialise steps that write shared build output (checks may be run concurrently)."""
@@ -331,7 +365,11 @@ class Result:
         ok, failing, log = coq_build(targets)
         self.coverage["checker_cmd"] = "make -j%d (coq_makefile, full .vo) in /verif/coq; coqc Properties/%s.v with Print Assumptions" % (NPROC, pid)
         if not ok:
-            self.coverage["obligations"] = max(self.coverage["obligations"], 1)
+            try:  # the statements of the file that no longer builds count as obligations that are not discharged
+                nstm = len(re.findall(r"^\s*(?:Theorem|Lemma|Corollary|Example)\b", open(os.path.join(COQ, "Properties", pid + ".v")).read(), re.M))
+            except OSError:
+                nstm = 0
+            self.coverage["obligations"] += max(nstm, 1)
             self.broken.append({"name": "proof:" + str(failing), "detail": log[-3000:]})
             return False
         pr = coq_props(pid)
